@@ -93,16 +93,29 @@ func c04r1(r *R) {
 func c04r2(r *R) {
 	c := r.C
 	rd := hijackMethod(r, "Read")
-	hj := hijackMethod(r, "hijackClientHello")
+	hj := c.Method("pkg/hack", "HijackClientHelloConn", "hijackClientHello") // may have been merged into Read
 	o := r.Ob("C04.R2", "tee-exactly-the-read-bytes:"+funcName(rd)).At(rd.Pos())
-	// every call of hijackClientHello anywhere passes b[:n] of the same read
+	// the tee as seen from Read: the call of the helper, or the buffer write itself when there is no helper
+	teeName := "(*bytes.Buffer).Write"
+	if hj != nil {
+		teeName = "(*hack.HijackClientHelloConn).hijackClientHello"
+	}
+	isTee := func(i ssa.Instruction) bool {
+		if !isCall(i, teeName) {
+			return false
+		}
+		return hj != nil || c.Expr(callOf(i).Args[0]) == "p0.buf"
+	}
 	n := 0
 	for _, fn := range c.FuncsIn() {
-		for _, s := range callsIn(fn, "(*hack.HijackClientHelloConn).hijackClientHello") {
+		eachInstr(fn, func(s ssa.Instruction) {
+			if !isTee(s) {
+				return
+			}
 			n++
 			o.AtI(s)
-			o.Check(fn == rd, "hijackClientHello is also called from %s", funcName(fn))
-			e := c.Expr(callOf(s).Args[1])
+			o.Check(fn == rd, "the capture buffer is also fed from %s", funcName(fn))
+			e := c.ExprAt(callOf(s).Args[1], s.Block())
 			o.Check(e == "p1[:"+nInnerRead+"#0]", "the bytes teed into the capture buffer are %s, want b[:n] of this read (not the whole buffer, not an offset)", e)
 			gs := c.guardStrs(s.Block())
 			o.Check(hasGuard(gs, "+("+nInnerRead+"#1 == nil)") || hasGuard(gs, "-("+nInnerRead+"#1 != nil)"), "bytes are captured although the read failed; guards %v", gs)
@@ -110,47 +123,40 @@ func c04r2(r *R) {
 				ok := strings.Contains(g, nInnerRead+"#1") || g == "-"+nHasComplete || strings.Contains(g, nInnerRead+"#0")
 				o.Check(ok, "capture is additionally conditional on %s (only n/err of this read and completeness may decide)", g)
 			}
-		}
-	}
-	o.Check(n == 1, "expected exactly one hijackClientHello call site, found %d", n)
-	// must-call: on the err == nil && !complete edge the tee happens before return
-	var inner ssa.Instruction
-	for _, s := range callsIn(rd, "(net.Conn).Read") {
-		inner = s
-	}
-	if inner != nil {
-		p := c.escapePath(rd, inner, func(i ssa.Instruction) bool {
-			return isCall(i, "(*hack.HijackClientHelloConn).hijackClientHello")
-		}, func(i ssa.Instruction) bool {
-			if !isReturn(i) {
-				return false
-			}
-			return false
 		})
-		_ = p
-		// explicit: block on the (+err==nil, -complete) edges contains the call
-		found := false
-		for _, b := range rd.Blocks {
-			gs := c.guardStrs(b)
-			if hasGuard(gs, "-"+nHasComplete) && (hasGuard(gs, "+("+nInnerRead+"#1 == nil)") || hasGuard(gs, "-("+nInnerRead+"#1 != nil)")) {
-				for _, i := range b.Instrs {
-					if isCall(i, "(*hack.HijackClientHelloConn).hijackClientHello") {
-						found = true
-					}
+	}
+	o.Check(n == 1, "expected exactly one site feeding the capture buffer, found %d", n)
+	// must-call: on the err == nil && !complete edge the tee happens before return
+	found := false
+	for _, b := range rd.Blocks {
+		gs := c.guardStrs(b)
+		if hasGuard(gs, "-"+nHasComplete) && (hasGuard(gs, "+("+nInnerRead+"#1 == nil)") || hasGuard(gs, "-("+nInnerRead+"#1 != nil)")) {
+			for _, i := range b.Instrs {
+				if isTee(i) {
+					found = true
 				}
 			}
 		}
-		o.Check(found, "on the successful-read, hello-not-yet-complete edge the bytes are not teed")
 	}
-	// hijackClientHello writes its whole parameter to the buffer, once, unconditionally, then re-parses
-	o2 := r.Ob("C04.R2", "append-whole-chunk:"+funcName(hj)).At(hj.Pos())
-	ws := callsIn(hj, "(*bytes.Buffer).Write")
-	if o2.Check(len(ws) == 1, "hijackClientHello writes to the buffer %d times", len(ws)) {
+	o.Check(found, "on the successful-read, hello-not-yet-complete edge the bytes are not teed")
+	// the whole chunk is appended once, unconditionally (within the helper, or right at the tee), then the header is re-parsed
+	where := rd
+	want := "(*bytes.Buffer).Write(p0.buf, p1[:" + nInnerRead + "#0])"
+	if hj != nil {
+		where = hj
+		want = "(*bytes.Buffer).Write(p0.buf, p1)"
+	}
+	o2 := r.Ob("C04.R2", "append-whole-chunk:"+funcName(where)).At(where.Pos())
+	ws := callsIn(where, "(*bytes.Buffer).Write")
+	if o2.Check(len(ws) == 1, "%s writes to the buffer %d times", where.Name(), len(ws)) {
 		o2.AtI(ws[0])
-		o2.Check(c.Expr(ws[0].(ssa.Value)) == "(*bytes.Buffer).Write(p0.buf, p1)", "buffer write is %s, want buf.Write(b)", c.Expr(ws[0].(ssa.Value)))
-		o2.Check(len(guardsOf(ws[0].Block())) == 0 && !inLoop(ws[0].Block()), "buffer write is conditional or repeated")
-		tp := callsIn(hj, "(*hack.HijackClientHelloConn).tryParseClientHello")
-		o2.Check(len(tp) == 1 && instrDominates(ws[0], tp[0]), "the record header is not (re)parsed after appending")
+		o2.Check(c.Expr(ws[0].(ssa.Value)) == want, "buffer write is %s, want buf.Write(b)", c.Expr(ws[0].(ssa.Value)))
+		if hj != nil {
+			o2.Check(len(guardsOf(ws[0].Block())) == 0, "buffer write is conditional")
+		}
+		o2.Check(!inLoop(ws[0].Block()), "buffer write is repeated")
+		tp := callsIn(where, "(*hack.HijackClientHelloConn).tryParseClientHello")
+		o2.Check(len(tp) == 1 && instrDominates(ws[0], tp[0]) && tp[0].Block() == ws[0].Block(), "the record header is not (re)parsed after appending")
 	}
 }
 
@@ -160,6 +166,7 @@ func c04r3(r *R) {
 	r.need(ht != nil, "type not found")
 	allowed := map[string]string{
 		"addr:call:(*bytes.Buffer).Write":    "(*hack.HijackClientHelloConn).hijackClientHello",
+		"addr:call:(*bytes.Buffer).Write/":   "(*hack.HijackClientHelloConn).Read", // when the helper has been merged into Read (C04.R2 checks the site)
 		"addr:call:(*bytes.Buffer).Truncate": "(*hack.HijackClientHelloConn).hasCompleteClientHello",
 		"addr:call:(*bytes.Buffer).Len":      "*",
 		"addr:call:(*bytes.Buffer).Bytes":    "*",
@@ -173,7 +180,7 @@ func c04r3(r *R) {
 			o.Fail("the capture buffer is touched by %s in %s (only Write in hijackClientHello, Truncate in hasCompleteClientHello, Len and Bytes are expected)", a.Kind, funcName(a.Fn))
 			continue
 		}
-		o.Check(who == "*" || who == funcName(a.Fn), "%s on the capture buffer from %s", a.Kind, funcName(a.Fn))
+		o.Check(who == "*" || who == funcName(a.Fn) || allowed[a.Kind+"/"] == funcName(a.Fn), "%s on the capture buffer from %s", a.Kind, funcName(a.Fn))
 	}
 	r.Ob("C04.R3", "instances").Check(n >= 6, "expected >= 6 accesses of the capture buffer, found %d", n)
 	// Truncate: on the too-long edge, with expectedLen, before reporting complete
